@@ -32,6 +32,10 @@ def main(tier, replay=None):
                                        kinds=["Node", "Node", "Node", "Box", "Box", "Array", "Tuple", "Table", "Ref"])
                   for _ in range(n)], "random/boxes")
     camp.run([], [gcgen.random_program(rng, nobj=40, nops=250) for _ in range(n // 2)], "random/mixed")
+    # objects of a type with its own Alloc instance (placed by the type, released through it): registered, deleted, collected
+    # and torn down like any other
+    camp.run([], [gcgen.random_program(rng, nobj=rng.choice([12, 30]), nops=rng.choice([80, 200]), arena=arena_slots(rng, 60),
+                                       kinds=["Node", "Node", "Node", "Box", "Ref", "Array"]) for _ in range(max(6, n // 4))], "random/own-allocator")
     # thousands of objects, a fraction kept through a rooted Array of Ref: the registry passes through many of its sizes
     camp.run([], [["reset", "bulk %d %d" % (m, k)] for (m, k) in (((700, 3), (3000, 7), (12000, 2)) if quick else ((300, 1), (700, 3), (3000, 7), (12000, 2), (40000, 5), (60000, 11)))],
              "bulk", sample=False)
